@@ -6,6 +6,9 @@
 //     M  tlx::CountingPtr<Obj>                    (default Deleter)
 //     C  tlx::CountingPtr<const Obj>              (default Deleter; the converting overloads are the M -> C ones)
 //     N  tlx::CountingPtrNoDelete<Obj>            (CountingPtrNoOperationDeleter: counts like any handle, never deletes)
+//     B  tlx::CountingPtr<Base>                   (default Deleter; Obj derives from Base, which is NOT its first base class, so
+//                                                  the Derived* -> Base* conversions of the converting overloads adjust the pointer;
+//                                                  Base has a virtual destructor; unify() through a B handle slices to a Base object)
 // Handle variables live in raw storage (placement new / explicit destructor call), so that every constructor and
 // the destructor are exercised as primitives.  Handles of different kinds meet on the same object through get()
 // (construction from the raw pointer).  Every member of the class is exercised: the mutating ones as operations,
@@ -26,19 +29,22 @@
 #include <tlx/counting_ptr.hpp>
 
 // ---------------------------------------------------------------- counted object type
-struct Obj;
+struct Base;
 struct Registry {
     std::vector<int> dcount;            // destructor calls per object id
-    std::vector<const Obj*> addr;       // address per object id
+    std::vector<const Base*> addr;      // address (of the Base subobject) per object id
+    std::vector<char> is_obj;           // dynamic type is Obj (else a plain Base, made by unify() through a B handle or by N/AN on a B variable)
     std::set<const void*> live;         // addresses of live instances
     int errors = 0;
     std::string first_error;
     void err(const std::string& e) { if (!errors++) first_error = e; }
-    void reset() { dcount.clear(); addr.clear(); live.clear(); errors = 0; first_error.clear(); }
+    void reset() { dcount.clear(); addr.clear(); is_obj.clear(); live.clear(); errors = 0; first_error.clear(); }
     static Registry& get() { static Registry r; return r; }
 };
 
-struct Obj : public tlx::ReferenceCounter {
+struct Pad { long pad[2] = {1, 2}; virtual ~Pad() {} };
+
+struct Base : public tlx::ReferenceCounter {
     int id;
     int payload;
     int* heap; // owned, so that ASan sees a use after destruction and leaks
@@ -47,12 +53,15 @@ struct Obj : public tlx::ReferenceCounter {
         id = static_cast<int>(R.dcount.size());
         R.dcount.push_back(0);
         R.addr.push_back(this);
+        R.is_obj.push_back(0);
         if (!R.live.insert(this).second) R.err("construct over live object");
     }
-    explicit Obj(int x) : payload(x), heap(new int(x)) { reg(); }
-    Obj(const Obj& o) : tlx::ReferenceCounter(o), payload(o.payload), heap(new int(*o.heap)) { reg(); }
-    Obj& operator=(const Obj&) = delete;
-    ~Obj() {
+    explicit Base(int x) : payload(x), heap(new int(x)) { reg(); }
+    Base(const Base& o) : tlx::ReferenceCounter(o), payload(o.payload), heap(new int(*o.heap)) { reg(); }
+    // assignment of counted objects: ReferenceCounter::operator= must leave both counts alone (the payload of this test
+    // type deliberately stays, so that the model has nothing to update)
+    Base& operator=(const Base& o) { tlx::ReferenceCounter::operator=(o); return *this; }
+    virtual ~Base() {
         auto& R = Registry::get();
         ++R.dcount[id];
         if (!R.live.erase(this)) R.err("destructor on dead object");
@@ -61,9 +70,20 @@ struct Obj : public tlx::ReferenceCounter {
     }
 };
 
+struct Obj : public Pad, public Base {
+    explicit Obj(int x) : Base(x) { Registry::get().is_obj[id] = 1; }
+    Obj(const Obj& o) : Pad(o), Base(o) { Registry::get().is_obj[id] = 1; }
+    Obj& operator=(const Obj& o) { Base::operator=(o); return *this; }
+};
+
+// make_counting with a throwing constructor: no handle, no object, no leak
+struct Thrower : public tlx::ReferenceCounter { Thrower() { throw 1; } };
+
 using PM = tlx::CountingPtr<Obj>;
 using PC = tlx::CountingPtr<const Obj>;
 using PN = tlx::CountingPtrNoDelete<Obj>;
+using PB = tlx::CountingPtr<Base>;
+template class tlx::CountingPtr<Base>;
 template class tlx::CountingPtr<Obj>;
 template class tlx::CountingPtr<const Obj>;
 template class tlx::CountingPtr<Obj, tlx::CountingPtrNoOperationDeleter>;
@@ -75,7 +95,7 @@ struct Slot {
     bool live = false;
     template <typename T> T& as() { return *reinterpret_cast<T*>(buf); }
 };
-static_assert(sizeof(PM) == sizeof(PC) && sizeof(PM) == sizeof(PN), "one pointer each");
+static_assert(sizeof(PM) == sizeof(PC) && sizeof(PM) == sizeof(PN) && sizeof(PM) == sizeof(PB), "one pointer each");
 
 struct Machine {
     Slot s[MAXV];
@@ -89,9 +109,11 @@ struct Machine {
 
     // f(handle&) on the variable's real type
     template <typename F> void with(long v, F f) {
-        switch (k(v)) { case 'M': f(s[v].as<PM>()); break; case 'C': f(s[v].as<PC>()); break; default: f(s[v].as<PN>()); }
+        switch (k(v)) { case 'M': f(s[v].as<PM>()); break; case 'C': f(s[v].as<PC>()); break; case 'B': f(s[v].as<PB>()); break; default: f(s[v].as<PN>()); }
     }
-    const Obj* getp(long v) { const Obj* p = nullptr; with(v, [&](auto& a) { p = a.get(); }); return p; }
+    const Base* getp(long v) { const Base* p = nullptr; with(v, [&](auto& a) { p = a.get(); }); return p; }
+    static bool conv_ok(char kv, char kw) { return kw == 'M' && (kv == 'C' || kv == 'B'); }       // CountingPtr<Subclass, same Deleter> -> CountingPtr<Type>
+    static bool raw_ok(char kv, char kw) { return kw == 'M' || kw == 'N' || kv == kw; }             // w.get() converts to v's pointer type
 
     // returns false if the lifetime precondition fails (step skipped)
     bool apply(const std::string& n, const std::vector<long>& f) {
@@ -101,40 +123,68 @@ struct Machine {
         auto lv = [&](long x) { return inr(x) && s[x].live; };
         bool twovar = (n == "FR" || n == "CC" || n == "XCC" || n == "MC" || n == "XMC" || n == "CA" || n == "XCA" ||
                        n == "MA" || n == "XMA" || n == "SW");
-        bool ctor = (n == "N" || n == "DF" || n == "NP" || n == "FR" || n == "CC" || n == "XCC" || n == "MC" || n == "XMC");
+        bool ctor = (n == "N" || n == "DF" || n == "NP" || n == "FR" || n == "CC" || n == "XCC" || n == "MC" || n == "XMC" || n == "AD");
+        if (n == "OA") { if (!lv(v) || !lv(w) || !getp(v) || !getp(w)) return false; }
         if (ctor) { if (!inr(v) || s[v].live) return false; if (twovar && !lv(w)) return false; }
         else { if (!lv(v)) return false; if (twovar && !lv(w)) return false; }
+        auto& RG = Registry::get();
+        if (n == "AD") {      // adopt the raw pointer of object #w: it must still be alive (with or without handles)
+            if (w < 0 || w >= static_cast<long>(RG.addr.size()) || !RG.live.count(RG.addr[w])) return false;
+            if (!RG.is_obj[w] && k(v) != 'B') { illtyped = n; return false; }
+        }
+        if (n == "OA") {
+            bool ok = k(v) == 'B' || ((k(v) == 'M' || k(v) == 'N') && k(w) != 'B');
+            if (!ok) { illtyped = n; return false; }
+        }
         // typing discipline of the generator
         if (twovar) {
             bool conv = (n[0] == 'X');
             bool same = k(v) == k(w);
-            bool ok = conv ? (k(v) == 'C' && k(w) == 'M') : (n == "FR" ? (k(w) != 'C' || k(v) == 'C') : same);
+            bool ok = conv ? conv_ok(k(v), k(w)) : (n == "FR" ? raw_ok(k(v), k(w)) : same);
             if (!ok) { illtyped = n; return false; }
         }
         void* at = s[v].buf;
         int x = f.size() > 1 ? static_cast<int>(f[1]) : 0;
         if (n == "N") {
             if (k(v) == 'M' && x % 2) new (at) PM(tlx::make_counting<Obj>(x));
-            else with(v, [&](auto& a) { using T = std::decay_t<decltype(a)>; new (at) T(new Obj(x)); });
+            else if (k(v) == 'B' && x % 2) new (at) PB(tlx::make_counting<Base>(x));          // a plain Base object
+            else with(v, [&](auto& a) { using T = std::decay_t<decltype(a)>; new (at) T(new Obj(x)); });   // B: a Derived object owned through Base handles
         }
         else if (n == "DF") with(v, [&](auto& a) { using T = std::decay_t<decltype(a)>; new (at) T(); });
         else if (n == "NP") with(v, [&](auto& a) { using T = std::decay_t<decltype(a)>; new (at) T(nullptr); });
         else if (n == "FR") {
             if (k(w) == 'C') new (at) PC(s[w].as<PC>().get());
+            else if (k(w) == 'B') new (at) PB(s[w].as<PB>().get());
             else {
                 Obj* raw = k(w) == 'M' ? s[w].as<PM>().get() : s[w].as<PN>().get();
                 with(v, [&](auto& a) { using T = std::decay_t<decltype(a)>; new (at) T(raw); });
             }
         }
         else if (n == "CC") with(v, [&](auto& a) { using T = std::decay_t<decltype(a)>; new (at) T(s[w].as<T>()); });
-        else if (n == "XCC") new (at) PC(s[w].as<PM>());
+        else if (n == "AD") {
+            Base* rb = const_cast<Base*>(RG.addr[w]);
+            if (k(v) == 'B') new (at) PB(rb);
+            else { Obj* ro = static_cast<Obj*>(rb); with(v, [&](auto& a) { using T = std::decay_t<decltype(a)>; new (at) T(ro); }); }
+        }
+        else if (n == "AZ") with(v, [&](auto& a) { a = nullptr; });
+        else if (n == "OA") {
+            if (k(v) == 'B') { const Base* src = getp(w); *s[v].as<PB>() = *src; }
+            else {
+                const Obj* src = k(w) == 'M' ? s[w].as<PM>().get() : k(w) == 'C' ? s[w].as<PC>().get() : s[w].as<PN>().get();
+                if (k(v) == 'M') *s[v].as<PM>() = *src; else *s[v].as<PN>() = *src;
+            }
+        }
+        else if (n == "XCC") { if (k(v) == 'C') new (at) PC(s[w].as<PM>()); else new (at) PB(s[w].as<PM>()); }
         else if (n == "MC") with(v, [&](auto& a) { using T = std::decay_t<decltype(a)>; new (at) T(std::move(s[w].as<T>())); });
-        else if (n == "XMC") new (at) PC(std::move(s[w].as<PM>()));
+        else if (n == "XMC") { if (k(v) == 'C') new (at) PC(std::move(s[w].as<PM>())); else new (at) PB(std::move(s[w].as<PM>())); }
         else if (n == "CA") with(v, [&](auto& a) { using T = std::decay_t<decltype(a)>; T& o = s[w].as<T>(); a = o; });
-        else if (n == "XCA") s[v].as<PC>() = s[w].as<PM>();
+        else if (n == "XCA") { if (k(v) == 'C') s[v].as<PC>() = s[w].as<PM>(); else s[v].as<PB>() = s[w].as<PM>(); }
         else if (n == "MA") with(v, [&](auto& a) { using T = std::decay_t<decltype(a)>; T& o = s[w].as<T>(); a = std::move(o); });
-        else if (n == "XMA") s[v].as<PC>() = std::move(s[w].as<PM>());
-        else if (n == "AN") with(v, [&](auto& a) { using T = std::decay_t<decltype(a)>; a = T(new Obj(x)); });
+        else if (n == "XMA") { if (k(v) == 'C') s[v].as<PC>() = std::move(s[w].as<PM>()); else s[v].as<PB>() = std::move(s[w].as<PM>()); }
+        else if (n == "AN") {
+            if (k(v) == 'B' && x % 2) s[v].as<PB>() = PB(new Base(x));
+            else with(v, [&](auto& a) { using T = std::decay_t<decltype(a)>; a = T(new Obj(x)); });
+        }
         else if (n == "R") with(v, [&](auto& a) { a.reset(); });
         else if (n == "SW") with(v, [&](auto& a) { using T = std::decay_t<decltype(a)>; T& o = s[w].as<T>(); if (v < w) swap(a, o); else a.swap(o); });
         else if (n == "U") with(v, [&](auto& a) { a.unify(); });
@@ -173,11 +223,15 @@ struct Machine {
         for (int v = 0; v < nv; ++v) {
             if (v) o << ',';
             if (!s[v].live) { o << '-'; continue; }
-            const Obj* p = getp(v);
+            const Base* p = getp(v);
             with(v, [&](auto& a) { check_observers(a, v, pbad); });
             if (!p) {
                 bool u = false; with(v, [&](auto& a) { u = a.unique(); });
                 if (u && pbad.empty()) pbad = "unique() on an empty handle";
+#ifdef C12_EMPTY_USE_COUNT
+                size_t uc0 = 1; with(v, [&](auto& a) { uc0 = a.use_count(); });
+                if (uc0 != 0 && pbad.empty()) pbad = "use_count() of an empty handle is not 0";
+#endif
                 o << '0';
                 continue;
             }
@@ -197,6 +251,7 @@ struct Machine {
             bool dropped_now = prev_handles[i] > 0 && handles[i] == 0;
             bool by_nodelete = dropped_now && rel >= 0 && k(rel) == 'N';
             if (by_nodelete && R.dcount[i] == 0) orphaned[i] = 1;
+            if (handles[i] > 0) orphaned[i] = 0;                 // adopted again
             if (pbad.empty()) {
                 if (handles[i] > 0 && seen_count[i] != handles[i]) pbad = "use_count differs from the number of handles";
                 else if (handles[i] > 0 && R.dcount[i] != 0) pbad = "object destroyed while a handle remains";
@@ -222,7 +277,7 @@ static void run_seq(std::istringstream& in) {
     std::string verdict;
     {
         Machine M; M.kinds = kinds.substr(0, MAXV); M.nv = static_cast<int>(M.kinds.size());
-        for (char c : M.kinds) if (c != 'M' && c != 'C' && c != 'N') M.illtyped = "kinds";
+        for (char c : M.kinds) if (c != 'M' && c != 'C' && c != 'N' && c != 'B') M.illtyped = "kinds";
         std::string tok; int stepno = 0;
         while (M.illtyped.empty() && in >> tok) {
             std::vector<long> f; std::string name; size_t p = 0; bool first = true;
@@ -261,6 +316,11 @@ static void run_seq(std::istringstream& in) {
 
 int main(int argc, char** argv) {
     if (argc < 2) return 2;
+    {   // make_counting with a throwing constructor: the exception passes through, nothing is owned, nothing leaks (ASan)
+        bool threw = false;
+        try { auto p = tlx::make_counting<Thrower>(); (void)p; } catch (int) { threw = true; }
+        if (!threw) { std::cout << "SELFTEST make_counting(throwing constructor) did not throw\n"; return 3; }
+    }
     std::ifstream f(argv[1]);
     std::string line;
     while (std::getline(f, line)) {
